@@ -4,7 +4,13 @@
 //     package-level variable with a constant initialiser (LinkBufferCap, ...), as Lean definitions;
 //   - <facts>           : JSON with the same constants plus, per function, a fingerprint of its body
 //     (sha256 of the comment-free, gofmt-normalised source) and the ordered list of synchronisation
-//     operations in it (sync/atomic calls, channel ops, go statements, calls to locker methods).
+//     operations in it (sync/atomic calls, channel ops, go statements, calls to locker methods, user
+//     callback calls, runtime.Gosched, syscall.Close) - enumerated by package syncops, which
+//     tools/instrument uses for its site ids, so "the k-th sync op of f" means the same in both;
+//   - <out>/Life.lean   : the sync lists of the functions the lifecycle model (Netpoll.Conn.Life) mirrors;
+//   - <out>/Fd.lean     : every call site in package netpoll that closes a descriptor or an object wrapping one
+//     (syscall.Close, unix.Close, (*os.File).Close, Close of a package-net object such as net.Listener /
+//     net.Conn, (*netFD).Close), as (file, function, kind, call expression) in source order (property C15).
 package main
 
 import (
@@ -24,6 +30,8 @@ import (
 	"strings"
 
 	"golang.org/x/tools/go/packages"
+
+	"verifextract/syncops"
 )
 
 type FuncFact struct {
@@ -32,75 +40,172 @@ type FuncFact struct {
 	File string   `json:"file"`
 }
 
+type CloseSite struct {
+	File string `json:"file"`
+	Func string `json:"func"`
+	Kind string `json:"kind"`
+	Call string `json:"call"`
+	Line int    `json:"line"`
+	pos  token.Pos
+}
+
 type Facts struct {
-	Consts map[string]string   `json:"consts"`
-	Funcs  map[string]FuncFact `json:"funcs"`
+	Consts     map[string]string      `json:"consts"`
+	Funcs      map[string]FuncFact    `json:"funcs"`
+	Shard      map[string][][2]string `json:"shard_steps,omitempty"` // C17, see shard.go
+	CloseSites []CloseSite            `json:"closeSites"`
+	// Mgr: step fingerprints of the poller-pool functions (C18), see mgrOps
+	Mgr         map[string][]string `json:"mgr,omitempty"`
+	ServerSteps map[string][]string `json:"server_steps,omitempty"` // C13, see server.go
 }
 
-func leanName(s string) string {
-	return strings.ReplaceAll(s, ".", "_")
-}
-
-func recvName(fd *ast.FuncDecl) string {
-	if fd.Recv == nil || len(fd.Recv.List) == 0 {
+// closeKind classifies a call expression; "" = not a descriptor-closing call.
+func closeKind(info *types.Info, x *ast.CallExpr) string {
+	sel, ok := x.Fun.(*ast.SelectorExpr)
+	if !ok || sel.Sel.Name != "Close" {
 		return ""
 	}
-	t := fd.Recv.List[0].Type
-	if st, ok := t.(*ast.StarExpr); ok {
-		t = st.X
+	if id, ok := sel.X.(*ast.Ident); ok {
+		if pn, ok := info.Uses[id].(*types.PkgName); ok {
+			switch pn.Imported().Path() {
+			case "syscall":
+				return "syscall"
+			case "golang.org/x/sys/unix":
+				return "unix"
+			}
+			return ""
+		}
 	}
-	if id, ok := t.(*ast.Ident); ok {
-		return id.Name
+	s, ok := info.Selections[sel]
+	if !ok {
+		return ""
 	}
-	return "?"
+	fn, ok := s.Obj().(*types.Func)
+	if !ok || fn.Pkg() == nil {
+		return ""
+	}
+	sig, _ := fn.Type().(*types.Signature)
+	recv := ""
+	if sig != nil && sig.Recv() != nil {
+		t := sig.Recv().Type()
+		if p, ok := t.(*types.Pointer); ok {
+			t = p.Elem()
+		}
+		if n, ok := t.(*types.Named); ok {
+			recv = n.Obj().Name()
+		}
+	}
+	switch fn.Pkg().Path() {
+	case "os":
+		if recv == "File" {
+			return "osfile"
+		}
+	case "net":
+		switch recv {
+		case "Listener":
+			return "netlistener"
+		case "Conn":
+			return "netconn"
+		default:
+			return "net"
+		}
+	case "github.com/cloudwego/netpoll":
+		if recv == "netFD" {
+			return "netfd"
+		}
+	}
+	return ""
 }
 
-func exprStr(fset *token.FileSet, e ast.Node) string {
-	var b bytes.Buffer
-	printer.Fprint(&b, fset, e)
-	return strings.Join(strings.Fields(b.String()), " ")
-}
+// functions whose step fingerprint is emitted into Gen/Manager.lean (C18)
+var mgrFuncs = []string{"newManager", "manager.SetNumLoops", "manager.SetLoadBalance", "manager.Close", "manager.Run",
+	"manager.Reset", "manager.Pick", "roundRobinLB.Pick", "roundRobinLB.Rebalance", "randomLB.Pick", "randomLB.Rebalance",
+	"newLoadbalance"}
 
-func syncOps(fset *token.FileSet, info *types.Info, body *ast.BlockStmt) []string {
+// mgrOps: the ordered list of steps of a poller-pool function that the interleaving model of C18 has a
+// program counter for: sync/atomic calls (with operands), go statements, defer statements, loops, calls of
+// the pool's own methods / the poller interface / openPoll / Gosched / Intn, plain stores to fields of the
+// manager and the balancers, index reads of a `polls` field, integer remainder, returns.
+func mgrOps(fset *token.FileSet, info *types.Info, body *ast.BlockStmt) []string {
 	var ops []string
+	isField := func(e ast.Expr) (string, bool) {
+		if sel, ok := e.(*ast.SelectorExpr); ok {
+			if s, ok := info.Selections[sel]; ok && s.Kind() == types.FieldVal {
+				return exprStr(fset, sel), true
+			}
+		}
+		return "", false
+	}
 	ast.Inspect(body, func(n ast.Node) bool {
 		switch x := n.(type) {
 		case *ast.GoStmt:
 			ops = append(ops, "go "+exprStr(fset, x.Call.Fun))
-		case *ast.SendStmt:
-			ops = append(ops, "send "+exprStr(fset, x.Chan))
-		case *ast.UnaryExpr:
-			if x.Op == token.ARROW {
-				ops = append(ops, "recv "+exprStr(fset, x.X))
+			return false
+		case *ast.DeferStmt:
+			ops = append(ops, "defer")
+		case *ast.ForStmt:
+			ops = append(ops, "for")
+		case *ast.RangeStmt:
+			ops = append(ops, "range "+exprStr(fset, x.X))
+		case *ast.BranchStmt:
+			if x.Tok == token.GOTO {
+				ops = append(ops, "goto "+x.Label.Name)
 			}
-		case *ast.SelectStmt:
-			ops = append(ops, "select")
+		case *ast.ReturnStmt:
+			ops = append(ops, "return")
+		case *ast.AssignStmt:
+			for _, l := range x.Lhs {
+				if f, ok := isField(l); ok {
+					ops = append(ops, "store "+f)
+				}
+			}
+		case *ast.IndexExpr:
+			if f, ok := isField(x.X); ok {
+				ops = append(ops, "index "+f)
+			}
+		case *ast.BinaryExpr:
+			if x.Op == token.REM {
+				ops = append(ops, "rem "+exprStr(fset, x.Y))
+			}
 		case *ast.CallExpr:
 			if sel, ok := x.Fun.(*ast.SelectorExpr); ok {
 				if id, ok := sel.X.(*ast.Ident); ok {
-					if pn, ok := info.Uses[id].(*types.PkgName); ok && pn.Imported().Path() == "sync/atomic" {
-						args := make([]string, len(x.Args))
-						for i, a := range x.Args {
-							args[i] = exprStr(fset, a)
+					if pn, ok := info.Uses[id].(*types.PkgName); ok {
+						switch pn.Imported().Path() {
+						case "sync/atomic":
+							args := make([]string, len(x.Args))
+							for i, a := range x.Args {
+								args[i] = exprStr(fset, a)
+							}
+							ops = append(ops, "atomic."+sel.Sel.Name+"("+strings.Join(args, ",")+")")
+						case "runtime", "github.com/bytedance/gopkg/lang/fastrand":
+							args := make([]string, len(x.Args))
+							for i, a := range x.Args {
+								args[i] = exprStr(fset, a)
+							}
+							ops = append(ops, "call "+exprStr(fset, sel)+"("+strings.Join(args, ",")+")")
 						}
-						ops = append(ops, "atomic."+sel.Sel.Name+"("+strings.Join(args, ",")+")")
 						return true
 					}
 				}
 				switch sel.Sel.Name {
-				case "lock", "unlock", "stop", "isUnlock", "closeBy", "isCloseBy", "status", "force",
-					"do", "done", "inuse", "unused", "isUnused", "Control", "Free", "Trigger", "Close",
-					"triggerRead", "triggerWrite", "changeState", "setState", "getState", "Lock", "Unlock",
-					"Store", "Load", "Delete", "Range", "Add", "Wait", "Done", "CompareAndSwap":
+				case "Pick", "Run", "Close", "Reset", "Rebalance", "LoadBalance", "Wait", "SetNumLoops", "SetLoadBalance", "Trigger":
 					args := make([]string, len(x.Args))
 					for i, a := range x.Args {
 						args[i] = exprStr(fset, a)
 					}
-					ops = append(ops, exprStr(fset, sel)+"("+strings.Join(args, ",")+")")
+					ops = append(ops, "call "+exprStr(fset, sel)+"("+strings.Join(args, ",")+")")
 				}
 			}
-			if id, ok := x.Fun.(*ast.Ident); ok && id.Name == "close" {
-				ops = append(ops, "close "+exprStr(fset, x.Args[0]))
+			if id, ok := x.Fun.(*ast.Ident); ok {
+				switch id.Name {
+				case "openPoll", "newLoadbalance", "newRoundRobinLB", "newRandomLB":
+					args := make([]string, len(x.Args))
+					for i, a := range x.Args {
+						args[i] = exprStr(fset, a)
+					}
+					ops = append(ops, "call "+id.Name+"("+strings.Join(args, ",")+")")
+				}
 			}
 		}
 		return true
@@ -108,10 +213,36 @@ func syncOps(fset *token.FileSet, info *types.Info, body *ast.BlockStmt) []strin
 	return ops
 }
 
+func fdLeanStr(s string) string {
+	return "\"" + strings.ReplaceAll(strings.ReplaceAll(s, "\\", "\\\\"), "\"", "\\\"") + "\""
+}
+
+func leanName(s string) string {
+	return strings.ReplaceAll(s, ".", "_")
+}
+
+// functions mirrored by lean/Netpoll/Conn/Life.lean (their sync lists go to Gen/Life.lean)
+var lifeFuncs = []string{
+	"locker.closeBy", "locker.isCloseBy", "locker.status", "locker.force", "locker.lock", "locker.unlock", "locker.stop",
+	"connection.onHup", "connection.onClose", "connection.closeCallback", "connection.onConnect", "connection.onDisconnect",
+	"connection.onRequest", "connection.onProcess", "connection.inputAck", "connection.triggerRead", "connection.triggerWrite",
+	"connection.Close", "connection.Detach", "connection.IsActive", "connection.initFinalizer", "connection.onPrepare",
+	"connection.register", "connection.SetOnRequest", "connection.AddCloseCallback",
+	"connection.getState", "connection.setState", "connection.changeState",
+	"FDOperator.Control", "FDOperator.Free", "FDOperator.do", "FDOperator.done", "FDOperator.inuse", "FDOperator.unused",
+	"operatorCache.freeable", "netFD.Close", "UnsafeLinkBuffer.Len", "UnsafeLinkBuffer.recalLen", "server.onAccept",
+}
+
+func recvName(fd *ast.FuncDecl) string { return syncops.RecvName(fd) }
+
+func exprStr(fset *token.FileSet, e ast.Node) string { return syncops.ExprStr(fset, e) }
+
 func main() {
 	repo := flag.String("repo", "/repo", "")
 	out := flag.String("out", "", "directory for generated Lean files")
 	factsPath := flag.String("facts", "", "facts.json path")
+	instrShard := flag.String("instr-shard", "", "write the instrumented copy of mux/shard_queue.go here (C17, shard.go)")
+	instrDir := flag.String("instr", "", "directory for instrumented copies of the server files (C13 harness overlay)")
 	flag.Parse()
 
 	cfg := &packages.Config{
@@ -124,8 +255,14 @@ func main() {
 		fmt.Fprintln(os.Stderr, "load:", err)
 		os.Exit(2)
 	}
-	facts := Facts{Consts: map[string]string{}, Funcs: map[string]FuncFact{}}
+	facts := Facts{Consts: map[string]string{}, Funcs: map[string]FuncFact{}, Mgr: map[string][]string{}}
+	var dialLean string
+	var pollLean string
 	for _, p := range pkgs {
+		if p.Name == "netpoll" {
+			dialLean = dialFacts(p)
+			pollLean = pollFacts(p)
+		}
 		if len(p.Errors) > 0 {
 			for _, e := range p.Errors {
 				fmt.Fprintln(os.Stderr, "pkg error:", e)
@@ -169,10 +306,7 @@ func main() {
 					if d.Body == nil {
 						continue
 					}
-					name := d.Name.Name
-					if r := recvName(d); r != "" {
-						name = r + "." + name
-					}
+					name := syncops.FuncName(d)
 					// comment-free normalised source of the whole declaration
 					var b bytes.Buffer
 					cp := *d
@@ -180,11 +314,75 @@ func main() {
 					(&printer.Config{Mode: printer.RawFormat}).Fprint(&b, token.NewFileSet(), &cp)
 					norm := strings.Join(strings.Fields(b.String()), " ")
 					h := sha256.Sum256([]byte(norm))
+					for _, mf := range mgrFuncs {
+						if prefix+name == mf {
+							facts.Mgr[mf] = mgrOps(p.Fset, p.TypesInfo, d.Body)
+						}
+					}
 					facts.Funcs[prefix+name] = FuncFact{
 						Hash: fmt.Sprintf("%x", h[:8]),
-						Sync: syncOps(p.Fset, p.TypesInfo, d.Body),
+						Sync: syncops.Texts(syncops.Ops(p.Fset, p.TypesInfo, d.Body)),
 						File: filepath.Base(p.Fset.Position(d.Pos()).Filename),
 					}
+					if p.Name == "netpoll" {
+						ast.Inspect(d.Body, func(n ast.Node) bool {
+							if x, ok := n.(*ast.CallExpr); ok {
+								if k := closeKind(p.TypesInfo, x); k != "" {
+									pos := p.Fset.Position(x.Pos())
+									facts.CloseSites = append(facts.CloseSites, CloseSite{
+										File: filepath.Base(pos.Filename), Func: name, Kind: k,
+										Call: exprStr(p.Fset, x), Line: pos.Line, pos: x.Pos(),
+									})
+								}
+							}
+							return true
+						})
+					}
+				}
+			}
+		}
+	}
+	sort.SliceStable(facts.CloseSites, func(i, j int) bool {
+		a, b := facts.CloseSites[i], facts.CloseSites[j]
+		if a.File != b.File {
+			return a.File < b.File
+		}
+		return a.pos < b.pos
+	})
+	if *out != "" {
+		// C19 access table: union of the non-race and the race build of the packages
+		var rpkgs []*packages.Package
+		for _, p := range pkgs {
+			rp, err := raceVariant(p)
+			if err != nil {
+				fmt.Fprintln(os.Stderr, "race variant of", p.Name, ":", err)
+				os.Exit(2)
+			}
+			if rp != nil {
+				rpkgs = append(rpkgs, rp)
+			}
+		}
+		if err := emitAccess([][]*packages.Package{pkgs, rpkgs}, *out); err != nil {
+			fmt.Fprintln(os.Stderr, err)
+			os.Exit(2)
+		}
+	}
+	shard := analyseShard(pkgs)
+	facts.Shard = shard.Steps
+	defer shard.emit(*out, *instrShard)
+	// server / event-loop step lists (C13); must run after the fingerprints: -instr rewrites the AST
+	for _, p := range pkgs {
+		if p.Name == "netpoll" {
+			steps, err := serverFacts(p, *instrDir)
+			if err != nil {
+				fmt.Fprintln(os.Stderr, "server facts:", err)
+				os.Exit(2)
+			}
+			facts.ServerSteps = steps
+			if *out != "" {
+				if err := writeServerLean(*out, steps); err != nil {
+					fmt.Fprintln(os.Stderr, err)
+					os.Exit(2)
 				}
 			}
 		}
@@ -220,6 +418,71 @@ func main() {
 		}
 		b.WriteString("\nend Netpoll.Gen\n")
 		if err := os.WriteFile(filepath.Join(*out, "Consts.lean"), []byte(b.String()), 0o644); err != nil {
+			fmt.Fprintln(os.Stderr, err)
+			os.Exit(2)
+		}
+		// sync-operation lists of the functions the lifecycle model mirrors (T-gen tie of Netpoll.Conn.Life)
+		var lb strings.Builder
+		lb.WriteString("/- GENERATED by /verif/tools/extract from /repo on every check run.  Do not edit.\n   Ordered synchronisation operations (package syncops) of the functions Netpoll.Conn.Life mirrors;\n   the k-th entry of sync_<f> is the schedule point with site id \"<f>#k\" of tools/instrument. -/\nnamespace Netpoll.Gen.Life\n\n")
+		for _, n := range lifeFuncs {
+			f, ok := facts.Funcs[n]
+			fmt.Fprintf(&lb, "def sync_%s : List String := [", leanName(n))
+			if ok {
+				for i, t := range f.Sync {
+					if i > 0 {
+						lb.WriteString(",")
+					}
+					fmt.Fprintf(&lb, "\n  %s", leanStr(t))
+				}
+			} else {
+				lb.WriteString("\"<function not found>\"")
+			}
+			lb.WriteString("]\n\n")
+		}
+		lb.WriteString("end Netpoll.Gen.Life\n")
+		if err := os.WriteFile(filepath.Join(*out, "Life.lean"), []byte(lb.String()), 0o644); err != nil {
+			fmt.Fprintln(os.Stderr, err)
+			os.Exit(2)
+		}
+		// Gen/Manager.lean: step fingerprints of the poller-pool functions (a missing function gives [])
+		var mb strings.Builder
+		mb.WriteString("/- GENERATED by /verif/tools/extract from /repo on every check run.  Do not edit.\n" +
+			"   Ordered step fingerprints of the poller-pool functions (poll_manager.go, poll_loadbalance.go). -/\nnamespace Netpoll.Gen\n\n")
+		for _, mf := range mgrFuncs {
+			fmt.Fprintf(&mb, "def mgr_%s : List String := [", leanName(mf))
+			for i, o := range facts.Mgr[mf] {
+				if i > 0 {
+					mb.WriteString(",")
+				}
+				mb.WriteString("\n  " + fdLeanStr(o))
+			}
+			mb.WriteString("]\n\n")
+		}
+		mb.WriteString("end Netpoll.Gen\n")
+		if err := os.WriteFile(filepath.Join(*out, "Manager.lean"), []byte(mb.String()), 0o644); err != nil {
+			fmt.Fprintln(os.Stderr, err)
+			os.Exit(2)
+		}
+		if err := os.WriteFile(filepath.Join(*out, "Dial.lean"), []byte(dialLean), 0o644); err != nil {
+			fmt.Fprintln(os.Stderr, err)
+			os.Exit(2)
+		}
+		if err := os.WriteFile(filepath.Join(*out, "Poll.lean"), []byte(pollLean), 0o644); err != nil {
+			fmt.Fprintln(os.Stderr, err)
+			os.Exit(2)
+		}
+		var f strings.Builder
+		f.WriteString("/- GENERATED by /verif/tools/extract from /repo on every check run.  Do not edit. -/\nnamespace Netpoll.Gen\n\n")
+		f.WriteString("/-- every call in package netpoll (linux build) that closes a descriptor or an object wrapping one:\n    (file, function, kind, call expression), in source order -/\n")
+		f.WriteString("def closeSites : List (String × String × String × String) := [")
+		for i, c := range facts.CloseSites {
+			if i > 0 {
+				f.WriteString(",")
+			}
+			fmt.Fprintf(&f, "\n  (%s, %s, %s, %s)", fdLeanStr(c.File), fdLeanStr(c.Func), fdLeanStr(c.Kind), fdLeanStr(c.Call))
+		}
+		f.WriteString("]\n\nend Netpoll.Gen\n")
+		if err := os.WriteFile(filepath.Join(*out, "Fd.lean"), []byte(f.String()), 0o644); err != nil {
 			fmt.Fprintln(os.Stderr, err)
 			os.Exit(2)
 		}
